@@ -104,8 +104,36 @@ func runWorkers(exe string, sc *scenario, tier string, seed, total uint64, nwork
 				finished := false
 				nviol := 0
 				rd := bufio.NewReaderSize(stdout, 1<<20)
+				// wall-clock watchdog: a worker that prints nothing for 3 minutes is stuck in something
+				// the simulator does not model (a bare channel, a real sleep): infrastructure, not a verdict
+				var lastMu sync.Mutex
+				last := time.Now()
+				stalled := false
+				stopWatch := make(chan struct{})
+				go func() {
+					tk := time.NewTicker(5 * time.Second)
+					defer tk.Stop()
+					for {
+						select {
+						case <-stopWatch:
+							return
+						case <-tk.C:
+							lastMu.Lock()
+							idle := time.Since(last)
+							lastMu.Unlock()
+							if idle > 180*time.Second {
+								stalled = true
+								cmd.Process.Kill()
+								return
+							}
+						}
+					}
+				}()
 				for {
 					line, err := rd.ReadString('\n')
+					lastMu.Lock()
+					last = time.Now()
+					lastMu.Unlock()
 					if len(line) > 0 {
 						line = strings.TrimRight(line, "\n")
 						sp := strings.SplitN(line, " ", 3)
@@ -145,6 +173,7 @@ func runWorkers(exe string, sc *scenario, tier string, seed, total uint64, nwork
 								br.stats.merge(&st)
 								br.mu.Unlock()
 							}
+						case "F":
 							finished = true
 						case "D":
 							br.mu.Lock()
@@ -165,6 +194,11 @@ func runWorkers(exe string, sc *scenario, tier string, seed, total uint64, nwork
 					}
 				}
 				werr := cmd.Wait()
+				close(stopWatch)
+				if stalled {
+					br.addInfra(fmt.Sprintf("worker %d made no progress for 3 minutes in run %d (blocking that the simulator does not model); killed", w, open))
+					return
+				}
 				if finished {
 					return
 				}
@@ -182,8 +216,21 @@ func runWorkers(exe string, sc *scenario, tier string, seed, total uint64, nwork
 					br.addInfra(fmt.Sprintf("worker %d died (exit %d) outside any run: %s", w, code, tail(stderr.String(), 2000)))
 					return
 				}
+				ae := abortEvent{Index: uint64(open), Exit: code, Stderr: stderr.String()}
+				if !sc.AbortIsViolation && classifyDeath(ae.Stderr) == "oom-abort" {
+					// an out-of-memory abort is C09/C10's subject, not this property's: count and go on
+					br.mu.Lock()
+					br.stats.add("probe.run-skipped:process-aborted-out-of-memory(reported-by-C09/C10)", 1)
+					br.mu.Unlock()
+					aborts++
+					if aborts >= 400 {
+						return
+					}
+					from = uint64(open) + 1
+					continue
+				}
 				br.mu.Lock()
-				br.aborts = append(br.aborts, abortEvent{Index: uint64(open), Exit: code, Stderr: stderr.String()})
+				br.aborts = append(br.aborts, ae)
 				br.mu.Unlock()
 				aborts++
 				if aborts >= 8 {
